@@ -41,11 +41,11 @@ def replay_kani(ob, r, ctx):
         info = engines.prepare_unit(ob.unit, ob.extract_fn)
         crate = info['crate']
         tdir = os.path.join(vlib.scratch(), 'kt', '%s-%s' % (ob.unit, ob.harness))
-        cmd = 'cd %s && cargo kani --harness %s --target-dir %s -Z concrete-playback --concrete-playback=inplace' % (crate, ob.harness, tdir)
+        cmd = 'cd %s && cargo kani --harness %s --target-dir %s -Z concrete-playback --concrete-playback=inplace' % (crate, ob.harness, tdir) + engines.CBMC_ARGS
         stub = ''
     else:
         crate = vlib.repo_copy()
-        cmd = 'cd %s && cargo kani -Z stubbing --harness %s --target-dir %s -Z concrete-playback --concrete-playback=inplace' % (crate, ob.harness, vlib.KANI_TARGET)
+        cmd = 'cd %s && cargo kani -Z stubbing --harness %s --target-dir %s -Z concrete-playback --concrete-playback=inplace' % (crate, ob.harness, vlib.KANI_TARGET) + engines.CBMC_ARGS
     rc, out, secs = run(cmd, timeout=max(2 * ob.timeout, 1200), mem_gb=max(40, ob.mem_gb))  # the JSON trace needs far more memory than the SAT run
     tests = re.findall(r'fn (kani_concrete_playback_\w+)', out)
     body = ['--- Kani concrete playback (inplace) output tail ---', out[-3000:], '']
